@@ -9,6 +9,8 @@ import Poly.Model.Btc
    init <m> <n> <feeRate> <mc>                 -> ok        (stateful part: a UTXO store of one redeem key)
    add <id> <value> <kind> <hash> <index>      -> ok
    choose <amount> <outs>                      -> err | panic | ok sel=<ids> sum=<n> fee=<n> utxos=<ids> stxos=<ids>
+   maketx <amount>                             -> err | err:amount | panic | ok in=<ids> out=<values> utxos=<ids> stxos=<ids>
+        (makeBtcTx with one payment output; the model computes chooseUtxos, the fee share and change = sum - amount)
    dump                                        -> utxos=<ids> stxos=<ids>
 -/
 open Poly Poly.Model.Btc
@@ -96,6 +98,24 @@ def step (s : St) (toks : List String) : St × String :=
     | .ok a st =>
       ({ s with store := st },
         s!"ok sel={showIds a.sel} sum={a.sum} fee={a.fee} utxos={showIds st.utxos} stxos={showIds st.stxos}")
+  | ["maketx", amount] =>
+    if !s.inited || !(1 ≤ s.m && s.m ≤ s.n && s.n ≤ 15) then (s, "bad-op") else
+    let amt := intOf amount
+    if amt ≤ 0 || amt > 2100000000000000 then (s, "err:amount") else
+    let P : Params := { mc := s.mc, target := amt.toNat, feeRate := s.feeRate, m := s.m, n := s.n,
+                        outs := [25, 34] }     -- the payment output (P2PKH script) and the change output (P2WSH script)
+    let T := tests P.target 1 1 4 1
+    match chooseUtxos T P s.store 1000000 with
+    | .err => (s, "err")
+    | .panic => (s, "panic")
+    | .ok a st =>
+      -- outs[i].Value - int64(float64(gasFee)/float64(amountSum)*float64(outs[i].Value)); change = sum - amountSum
+      let feeShare : Int := ((f64 a.fee / f64 P.target * f64 P.target).toUInt64.toNat : Nat)
+      let v1 : Int := amt - feeShare
+      let ch := change a.sum amt
+      let outs := [toString v1] ++ (if ch > 0 then [toString ch] else [])
+      ({ s with store := st },
+        s!"ok in={showIds a.sel} out={",".intercalate outs} utxos={showIds st.utxos} stxos={showIds st.stxos}")
   | ["dump"] => if !s.inited then (s, "bad-op") else (s, s!"utxos={showIds s.store.utxos} stxos={showIds s.store.stxos}")
   | _ => (s, "bad-op")
 
